@@ -2,7 +2,7 @@
    each followed by Print Assumptions; Examples show that hypotheses are satisfiable. *)
 From Coq Require Import ZArith List Bool PArith.
 From Coq Require Import Sorting.Permutation.
-From C08 Require Import Model Proofs ProofsKind ProofsTrans ProofsTrans2 ProofsUnion ProofsMeet ProofsJoin Statement.
+From C08 Require Import Model Proofs ProofsKind ProofsTrans ProofsTrans2 ProofsUnion ProofsMeet ProofsMeetComm ProofsJoin ProofsFuel Statement.
 Import ListNotations.
 
 (* subtyping and proper subtyping are reflexive: every kind, every cache content, every class table *)
@@ -111,6 +111,25 @@ Theorem simplified_union_equiv_partial : forall ct, wf_ct ct = true ->
 Proof. exact simplified_union_equiv_F1. Qed.
 Print Assumptions simplified_union_equiv_partial.
 
+(* meet_types is NOT always a lower bound (Statement.meet_lower is refuted inside the language, Any-free):
+   meet(Contra[float], Contra[int]) = Contra[int] in both argument orders, but Contra[int] is not a subtype of
+   Contra[float] (Contra contravariant, int promoted to float): the first, promotion-free proper-subtype test of
+   meet_types fails, the visitor then meets the ARGUMENTS regardless of variance.  Replayed on real mypy. *)
+Theorem meet_lower_refuted : exists ct s t x,
+  wf_ct ct = true /\ any_free s = true /\ any_free t = true /\
+  meet_types ct 20 s t = Some x /\ meet_types ct 20 t s = Some x /\ is_subtype ct 20 x s = Some false.
+Proof.
+  exists ml_ct, ml_s, ml_t, ml_t. destruct meet_lower_refuted_witness as [A [B [C [D [E [F _]]]]]]. auto 10.
+Qed.
+Print Assumptions meet_lower_refuted.
+
+Theorem meet_lower_statement_refuted : ~ Statement.meet_lower.
+Proof.
+  intros H. destruct meet_lower_refuted_witness as [A [_ [_ [D [_ [F _]]]]]].
+  destruct (H ml_ct A 20%nat ml_s ml_t ml_t D 20%nat) as [L _]. specialize (L _ F). discriminate.
+Qed.
+Print Assumptions meet_lower_statement_refuted.
+
 (* meet_types on F1: the meet is in F1 and a subtype of both arguments (either argument order is covered by the
    quantification over s and t) *)
 Theorem meet_lower_partial : forall ct, wf_ct ct = true ->
@@ -121,6 +140,24 @@ Proof.
   split; auto. intros m. split; apply (C_le ct K_sub eq_refl); auto.
 Qed.
 Print Assumptions meet_lower_partial.
+
+(* meet_types(s,t) and meet_types(t,s) are equivalent on F1 *)
+Theorem meet_comm_equiv_partial : forall ct, wf_ct ct = true ->
+  forall n s t x y, frag1 ct s = true -> frag1 ct t = true ->
+  meet_types ct n s t = Some x -> meet_types ct n t s = Some y ->
+  forall m, trueish (is_subtype ct m x y) /\ trueish (is_subtype ct m y x).
+Proof.
+  intros ct Hwf n s t x y Fs Ft H1 H2 m.
+  destruct (meet_comm_F1 ct Hwf n n s t x y Fs Ft H1 H2) as [Fx [Fy [L1 L2]]].
+  split; apply (C_le ct K_sub eq_refl); auto.
+Qed.
+Print Assumptions meet_comm_equiv_partial.
+
+(* the result of meet_types never depends on its fuel (all types, all class tables) *)
+Theorem meet_fuel_independent : forall ct m n n' s t x y,
+  meet ct no_cache m n s t = Some x -> meet ct no_cache m n' s t = Some y -> x = y.
+Proof. exact meet_agree. Qed.
+Print Assumptions meet_fuel_independent.
 
 (* join_types on F1up (Model.frag_up: F1 restricted to classes all of whose ancestors are plain): the join is in
    F1up and a supertype of both arguments (either argument order is covered by the quantification over s and t) *)
@@ -153,6 +190,26 @@ Proof.
 Qed.
 Print Assumptions join_comm_equiv_statement_refuted.
 
+(* sufficient fuel on F1: if promotion chains have length <= N (Model.chains_ok, evaluated on the real class table by
+   the harness), every subtype query between F1 types is answered at every fuel > N + 3 *)
+Theorem fuel_sufficient_partial : forall ct N, chains_ok ct N = true ->
+  forall n k l r, N + 3 < n -> frag1 ct l = true -> frag1 ct r = true -> sub ct no_cache n k l r <> None.
+Proof. exact fuel_sufficient_F1. Qed.
+Print Assumptions fuel_sufficient_partial.
+
+(* transitivity on F1 without any definedness side condition *)
+Theorem subtype_trans_partial_total : forall ct N, wf_ct ct = true -> chains_ok ct N = true ->
+  forall k a b c, k_notparams k = false -> frag1 ct a = true -> frag1 ct b = true -> frag1 ct c = true ->
+  forall n m, sub ct no_cache n k a b = Some true -> sub ct no_cache m k b c = Some true ->
+  forall q, N + 3 < q -> sub ct no_cache q k a c = Some true.
+Proof.
+  intros ct N Hwf Hch k a b c Hk Fa Fb Fc n m H1 H2 q Hq.
+  assert (D := fuel_sufficient_F1 ct N Hch q k a c Hq Fa Fc).
+  destruct (sub ct no_cache q k a c) as [y|] eqn:E; [|contradiction].
+  rewrite (sub_trans_F1 ct Hwf k a b c Hk Fa Fb Fc n m H1 H2 q y E). reflexivity.
+Qed.
+Print Assumptions subtype_trans_partial_total.
+
 (* ---------------------------------------------------------------- hypotheses are satisfiable *)
 Local Open Scope positive_scope.
 Definition ex_cls (mro : list cid) (vs : list variance) (bases : list cid) (am : list (cid * list aspec))
@@ -165,8 +222,8 @@ Definition ex_ct : ctable :=
                  (6, ex_cls [6; 1] [Cov] [1] [] []); (7, ex_cls [7; 6; 1] [Cov] [6] [(6, [AP 0%nat])] [])];
      k_object := 1; k_tuple := 4; k_bool := 5; k_sized := 9; k_tuplelike := [4] |}.
 
-Example ex_wf : wf_ct ex_ct = true.
-Proof. vm_compute. reflexivity. Qed.
+Example ex_wf : wf_ct ex_ct = true /\ chains_ok ex_ct 1 = true.
+Proof. vm_compute. auto. Qed.
 (* a non-trivial proper subtype: CoSub[tuple[bool, Literal[1]]] <: Co[tuple[int, int]] needs the tuple,
    literal, promotion-free nominal and covariance rules *)
 Example ex_proper : is_proper_subtype ex_ct 10%nat (TInst 7 [TTuple [TInst 5 []; TLit 2 1%Z]])
@@ -183,6 +240,18 @@ Example ex_frag_up : frag_up ex_ct (TUnion [TLit 2 1%Z; TNone; TInst 3 []]) = tr
   /\ join_types ex_ct 10%nat (TLit 2 1%Z) (TInst 3 []) = Some (TInst 3 [])
   /\ join_types ex_ct 10%nat (TInst 2 []) TNone = Some (TUnion [TInst 2 []; TNone]).
 Proof. vm_compute. auto. Qed.
+(* the hypotheses of subtype_trans_partial / meet / join / simplified-union theorems hold with defined answers *)
+Example ex_trans : frag1 ex_ct (TLit 2 1%Z) = true /\ frag1 ex_ct (TInst 2 []) = true
+  /\ frag1 ex_ct (TUnion [TNone; TInst 3 []]) = true
+  /\ is_subtype ex_ct 10%nat (TLit 2 1%Z) (TInst 2 []) = Some true
+  /\ is_subtype ex_ct 10%nat (TInst 2 []) (TUnion [TNone; TInst 3 []]) = Some true
+  /\ is_subtype ex_ct 10%nat (TLit 2 1%Z) (TUnion [TNone; TInst 3 []]) = Some true.
+Proof. vm_compute. repeat split; reflexivity. Qed.
+Example ex_laws_defined :
+  meet_types ex_ct 10%nat (TUnion [TInst 2 []; TNone]) (TInst 3 []) = Some (TInst 2 [])
+  /\ make_simplified_union ex_ct 10%nat [TLit 2 1%Z; TInst 2 []; TNone] = Some (TUnion [TInst 2 []; TNone])
+  /\ make_simplified_union ex_ct 10%nat [TNone; TInst 2 []; TLit 2 1%Z] = Some (TUnion [TNone; TInst 2 []]).
+Proof. vm_compute. repeat split; reflexivity. Qed.
 (* a sound, non-empty cache and an admissible op sequence with a hit *)
 Example ex_ops_ok : Forall op_ok [Query K_sub (TInst 5 []) (TInst 3 []); Reset; Query K_sub (TInst 5 []) (TInst 3 []);
                                   Query K_proper_np (TInst 5 []) (TInst 3 []); Query K_sub (TInst 5 []) (TInst 3 [])].
